@@ -15,9 +15,10 @@ import errno
 import os
 from typing import Any
 
-from detsim import env, gen, parseop, rng, simfs
+from detsim import env, gen, minimize, parseop, rng, runner, simfs
 from detsim.observe import exc_token, observe_chart
 from detsim.runner import Discard
+from detsim.sched import HarnessError, Scheduler
 
 PROP = "C06"
 LEVEL = "exploration"
@@ -119,6 +120,13 @@ def make_plan(seed: int, tier: str, index: int) -> dict[str, Any]:
         vsecs = [secs[i] for i in order]
         unknown = []
         names = p.sample(UNKNOWN_NAMES, p.choice([0, 0, 1, 1, 2]))
+        if p.random() < 0.25:
+            # a case variant of one of the 40 names is not one of the 40 names
+            h = p.choice(gen.ALL_HEADERS)
+            cv = p.choice([h.lower(), h.upper(), h.swapcase(), h[0].lower() + h[1:],
+                           h[:-1] + h[-1].upper(), h.capitalize()])
+            if cv not in gen.HEADERS and cv not in names:
+                names.append(cv)
         for name in names:
             body = [p.choice(UNKNOWN_BODY) for _ in range(p.randint(0, 4))]
             pos = p.randint(0, len(vsecs))
@@ -139,10 +147,19 @@ def make_plan(seed: int, tier: str, index: int) -> dict[str, Any]:
         variants.append({"order": order, "newline": nl, "bom": bom, "unknown": unknown,
                          "text": text, "op": op,
                          "permuted": order != list(range(n))})
+    sc = rng.stream(seed, "sched")
+    n_clients = 2 if index % 4 == 2 else 1
+    schedule: dict[str, Any] = {"mode": "sequential", "seed": 0, "p_boundary": 0.0}
+    if n_clients > 1:
+        schedule = {"mode": "geometric", "seed": sc.getrandbits(32), "gap": sc.choice([3, 10, 30, 200, 1000])}
+        if sc.random() < 0.3:
+            schedule = {"mode": "writes", "seed": sc.getrandbits(32), "p": sc.choice([0.1, 0.3, 0.6]),
+                        "hold": sc.choice([20, 200, 1000, 4000])}
     missing = p.randrange(3)
     msecs = [s for i, s in enumerate(secs) if i != missing]
     p.shuffle(msecs)
     return {"property": PROP, "seed": seed, "sub_batch": sub, "doc": doc,
+            "n_clients": n_clients, "schedule": schedule,
             "variants": variants, "missing": {"dropped": gen.REQUIRED[missing],
                                               "text": gen.render_sections(msecs, newline=p.choice(["\n", "\r\n"]))}}
 
@@ -180,6 +197,23 @@ def isolated_track_digests(doc: dict[str, Any]) -> dict[str, str]:
         except Exception as e:  # noqa: BLE001
             out[key] = "exc:" + type(e).__name__
     return out
+
+
+def _canonical_reference(doc: dict[str, Any]) -> dict[str, Any]:
+    """Canonical variant (LF, no BOM, canonical order, StringIO) and the isolated-section parses,
+    computed in a process forked from the pristine image."""
+    from detsim import world
+
+    world.install_log_sink()
+    world.drain_log()
+    try:
+        canon = world.parse_text(gen.render(doc))
+    except Exception as e:  # noqa: BLE001
+        return {"error": type(e).__name__}
+    log = world.drain_log()
+    obs = observe_chart(canon, ordered=False)
+    iso = isolated_track_digests(doc)
+    return {"obs": obs, "msgs": sorted(r[2] for r in log), "iso": iso}
 
 
 def check_routing(obs: dict[str, Any], model: dict[str, Any],
@@ -236,46 +270,83 @@ def execute(plan: dict[str, Any]) -> dict[str, Any]:
     nontrivial = []
     doc = plan["doc"]
     model = expected_model(doc)
+    # Reference from a pristine forked process; nothing is parsed in this process before the
+    # (possibly concurrent) clients start, so process-wide lazily initialised state is met cold.
+    try:
+        refd = runner.in_fork(_canonical_reference, doc, timeout=150)
+    except runner.ChildFailure as e:
+        return {"violations": [], "digest": "", "evals": 1,
+                "harness_error": f"reference computation failed: {e}"}
+    if "error" in refd:
+        raise Discard("canonical-variant-rejected:" + refd["error"])
+    canon_obs = refd["obs"]
+    canon_digest = rng.digest(canon_obs)
+    canon_msgs = refd["msgs"]
+    iso = refd["iso"]
+    bad = check_routing(canon_obs, model, iso)
+    if bad:
+        violations.append({"sig": f"C06/{bad[0]}/canonical/-", "detail": "canonical variant: " + bad[1]})
+    for h in model["tracks"].values():
+        probes["header:" + h["header"]] = 1
     fs = simfs.SimFS(os.path.join(env.scratch(), "simfs", f"run-{os.getpid()}"))
     fs.install()
+    n_clients = int(plan.get("n_clients") or 1)
+    sched = Scheduler(plan.get("schedule") or {"mode": "sequential", "seed": 0, "p_boundary": 0.0},
+                      n_clients, env.PKG_DIR, preempt_lines=not env.package_uses_locks_or_threads())
+    records: dict[int, Any] = {}
+
+    def body_for(ci: int) -> Any:
+        mine = list(range(len(plan["variants"])))[ci::n_clients]
+
+        def body(client: Any) -> None:
+            for k, vi in enumerate(mine):
+                v = plan["variants"][vi]
+                op = v["op"]
+                data = (b"\xef\xbb\xbf" if v["bom"] else b"") + v["text"].encode("utf-8")
+                before = dict(fs.stats)
+                sched.begin_op(client, k)
+                chart = None
+                err: BaseException | None = None
+                try:
+                    chart = parseop.do_parse(fs, op, data, f"v{vi}")
+                except HarnessError:
+                    raise
+                except BaseException as e:  # noqa: BLE001
+                    err = e
+                sched.end_op(client)
+                with sched.atomic(client):
+                    delta = {kk: fs.stats.get(kk, 0) - before.get(kk, 0) for kk in fs.stats}
+                    records[vi] = (chart, err, list(client.log),
+                                   {kk: n for kk, n in delta.items() if n})
+                    sched.record("op", ci, vi, "exc" if err else "ok")
+        return body
+
+    harness_error = None
     try:
-        # canonical variant: LF, no BOM, canonical order, StringIO
-        canon_text = gen.render(doc)
-        world.drain_log()
         try:
-            canon = world.parse_text(canon_text)
-        except Exception as e:  # noqa: BLE001
-            raise Discard("canonical-variant-rejected:" + type(e).__name__) from e
-        canon_log = world.drain_log()
-        canon_obs = observe_chart(canon, ordered=False)
-        canon_digest = rng.digest(canon_obs)
-        # what the canonical variant logs (unparsable-line reports of its own bodies); compared
-        # by message text only, so that renaming or merging loggers is not reported
-        canon_msgs = sorted(r[2] for r in canon_log)
-        iso = isolated_track_digests(doc)
+            sched.run([body_for(i) for i in range(n_clients)])
+        except HarnessError as e:
+            harness_error = str(e)
         world.drain_log()
-        bad = check_routing(canon_obs, model, iso)
-        if bad:
-            violations.append({"sig": f"C06/{bad[0]}/canonical/-", "detail": "canonical variant: " + bad[1]})
-        for h in model["tracks"].values():
-            probes["header:" + h["header"]] = 1
+        # local canonical parse, made after the simulation, only for the library's own == (used
+        # only if it is observably the pristine reference; otherwise history dependence of
+        # parsing itself is at work, which is C17's to report)
+        canon = None
+        try:
+            c2 = world.parse_text(gen.render(doc))
+            if rng.digest(observe_chart(c2, ordered=False)) == canon_digest:
+                canon = c2
+        except Exception:  # noqa: BLE001
+            canon = None
+        world.drain_log()
         for vi, v in enumerate(plan["variants"]):
+            if vi not in records:
+                continue
             op = v["op"]
-            data = (b"\xef\xbb\xbf" if v["bom"] else b"") + v["text"].encode("utf-8")
-            before = dict(fs.stats)
-            world.drain_log()
-            chart = None
-            err: BaseException | None = None
-            try:
-                chart = parseop.do_parse(fs, op, data, f"v{vi}")
-            except BaseException as e:  # noqa: BLE001
-                err = e
-            log = world.drain_log()
-            delta = {k: fs.stats.get(k, 0) - before.get(k, 0) for k in fs.stats}
-            delta = {k: n for k, n in delta.items() if n}
+            chart, err, log, delta = records[vi]
             for k, n in delta.items():
                 fired[k] = fired.get(k, 0) + n
-            dim = _dimension(v, bool(delta))
+            dim = _dimension(v, bool(delta) if n_clients == 1 else bool(op.get("io")))
             if dim != "canonical":
                 nontrivial.append(rng.digest([v["text"], v["bom"], op]))
             if op.get("eio") and fs.path(f"v{vi}.chart") in fs.eio_raised:
@@ -310,33 +381,35 @@ def execute(plan: dict[str, Any]) -> dict[str, Any]:
                                              f"differs from the canonical variant: {_first_diff(obs, canon_obs)}"})
                 continue
             try:
-                same = bool(chart == canon) and bool(canon == chart)
+                same = canon is None or (bool(chart == canon) and bool(canon == chart))
             except BaseException:  # noqa: BLE001
                 same = False
             if not same:
                 violations.append({"sig": f"C06/invariance/{dim}/eq",
                                    "detail": f"variant {vi} ({dim}): chart != canonical chart"})
                 continue
-            # every unknown section is reported exactly once (a record naming it); everything
-            # else that is logged equals what the canonical variant logs
-            msgs = [r[2] for r in log]
+            # every unknown section is reported exactly once, and everything else that is logged
+            # equals what the canonical variant logs.  Reports are COUNTED (the wording of a
+            # report is not part of the property): the variant's log must be the canonical
+            # variant's log plus exactly one record per unknown section.
+            msgs = [r[2] for r in log if not r[2].startswith(world.UNFORMATTABLE)]
             rest = list(msgs)
-            for name in v["unknown"]:
-                hits = [m for m in msgs if name in m]
-                if len(hits) != 1:
-                    violations.append({"sig": f"C06/unknown-warning/{dim}/{min(len(hits), 2)}",
-                                       "detail": f"variant {vi} ({dim}): unknown section {name!r} was "
-                                                 f"reported {len(hits)} times; log {msgs[:4]}"})
-                for m in hits:
-                    if m in rest:
-                        rest.remove(m)
-            if sorted(rest) != canon_msgs:
+            lacking = []
+            for m in canon_msgs:
+                if m in rest:
+                    rest.remove(m)
+                else:
+                    lacking.append(m)
+            if lacking:
                 violations.append({"sig": f"C06/invariance/{dim}/warnings",
-                                   "detail": f"variant {vi} ({dim}): besides the unknown-section reports "
-                                             f"the log differs from the canonical variant's: "
-                                             f"{[m for m in rest if m not in canon_msgs][:3]} (an unknown "
-                                             "section's body was parsed, or a section was reported that "
-                                             "should not be?)"})
+                                   "detail": f"variant {vi} ({dim}): reports of the canonical variant are "
+                                             f"missing from this variant's log: {lacking[:3]}"})
+            elif len(rest) != len(v["unknown"]):
+                violations.append({"sig": f"C06/unknown-warning/{dim}/{min(len(rest), len(v['unknown']) + 1)}",
+                                   "detail": f"variant {vi} ({dim}): {len(v['unknown'])} unknown section(s) "
+                                             f"{v['unknown']} but {len(rest)} report(s) beyond those of the "
+                                             f"canonical variant: {rest[:4]} (an unknown section not "
+                                             "reported once, or its body parsed?)"})
         # [Events] feeds the global events (relative): with its body emptied the three lists are
         # empty and everything else is unchanged
         secs0 = gen.sections(doc)
@@ -384,14 +457,21 @@ def execute(plan: dict[str, Any]) -> dict[str, Any]:
     shutil.rmtree(fs.root, ignore_errors=True)
     return {
         "violations": violations[:4],
-        "digest": ev.hexdigest()[:32],
+        "digest": rng.digest([ev.hexdigest(), sched.events.hexdigest()])[:32],
         "evals": len(plan["variants"]) + 3 + len(doc["tracks"]),
         "nontrivial": nontrivial,
         "faults_fired": {k: v for k, v in fired.items() if k in (
             "short_read", "eintr", "eio", "split_crlf", "split_bom", "split_multibyte", "forced_split")},
         "probes": probes,
         "ops": len(plan["variants"]) + 2,
-        "sub_batch": plan["sub_batch"],
+        "sub_batch": plan["sub_batch"] + ("/concurrent" if n_clients > 1 else ""),
+        "harness_error": harness_error,
+        "sim_steps": sched.global_step,
+        "switches": sched.switches,
+        "mid_op_switches": sched.mid_op_switches,
+        "interleaving": sched.interleaving.hexdigest()[:32] if n_clients > 1 else None,
+        "sched_mode": sched.mode,
+        "explicit_schedule": sched.explicit_schedule(),
         "sample": {"headers": [t[0] for t in doc["tracks"]][:8],
                    "variants": [{"order": v["order"][:12], "newline": v["newline"], "bom": v["bom"],
                                  "unknown": v["unknown"], "access": _acc(v["op"]),
@@ -425,9 +505,17 @@ def _first_diff(a: Any, b: Any, path: str = "") -> str:
 
 def shrink(plan: dict[str, Any]):
     vs = plan["variants"]
+    seq = {"n_clients": 1, "schedule": {"mode": "sequential", "seed": 0, "p_boundary": 0.0}}
+    if int(plan.get("n_clients") or 1) > 1:
+        yield {**plan, **seq}
     if len(vs) > 1:
         for v in vs:
-            yield {**plan, "variants": [v]}
+            yield {**plan, **seq, "variants": [v]}
+        if int(plan.get("n_clients") or 1) > 1:
+            for i in range(len(vs)):
+                for j in range(i + 1, len(vs)):
+                    yield {**plan, "variants": [vs[i], vs[j]]}
+            yield from minimize.shrink_schedule(plan)
     if len(vs) == 1:
         v = vs[0]
         op = v["op"]
